@@ -119,13 +119,18 @@ kf!(c02_sqrt_guard_fixnum, 10, |_arena| {
 
 // atan2(0, 0) in any zero representation is undefined
 kf!(c02_atan2_guard, 10, |_arena| {
-    let zy: bool = kani::any();
-    let zx: bool = kani::any();
-    let y = if zy { flt(-0.0) } else { fx(0) };
-    let x = if zx { flt(0.0) } else { fx(0) };
-    let r = atan2(y, x);
-    assert!(r.is_err() && err_kind() == 2);
-    std::mem::forget(r);
+    let r1 = atan2(fx(0), fx(0));
+    assert!(r1.is_err() && err_kind() == 2);
+    let r2 = atan2(flt(-0.0), flt(0.0));
+    assert!(r2.is_err());
+    let r3 = atan2(fx(0), flt(-0.0));
+    assert!(r3.is_err());
+    let r4 = atan2(flt(0.0), fx(0));
+    assert!(r4.is_err());
+    std::mem::forget(r1);
+    std::mem::forget(r2);
+    std::mem::forget(r3);
+    std::mem::forget(r4);
 });
 
 // division: a zero divisor of every representation -> zero_divisor, and nothing else is
@@ -312,10 +317,20 @@ kf!(c02_add_mul_mixed, 10, |arena| {
     let a = any_fixnum();
     let f = any_finite();
     let af = a.get_num() as f64;
-    let order: bool = kani::any();
-    let (l, r) = if order { (Number::Fixnum(a), flt(f)) } else { (flt(f), Number::Fixnum(a)) };
     let s = af + f;
-    match add(l, r, arena) {
+    match add(Number::Fixnum(a), flt(f), arena) {
+        Ok(Number::Float(OrderedFloat(v))) => assert!(s.is_finite() && v.to_bits() == s.to_bits()),
+        Ok(_) => assert!(false),
+        Err(e) => assert!(!s.is_finite() && matches!(e, EvalError::FloatOverflow)),
+    }
+});
+
+kf!(c02_add_mixed_swapped, 10, |arena| {
+    let a = any_fixnum();
+    let f = any_finite();
+    let af = a.get_num() as f64;
+    let s = af + f;
+    match add(flt(f), Number::Fixnum(a), arena) {
         Ok(Number::Float(OrderedFloat(v))) => assert!(s.is_finite() && v.to_bits() == s.to_bits()),
         Ok(_) => assert!(false),
         Err(e) => assert!(!s.is_finite() && matches!(e, EvalError::FloatOverflow)),
